@@ -48,6 +48,28 @@ pub fn replay_corpus(target: &str, st: &mut Stats) {
     st.extra.insert(format!("corpus_replayed_{target}"), json!(n));
 }
 
+/// The trees of the committed `policy` corpus (found by coverage-guided fuzzing against C02's
+/// oracle) through another check's judge.
+pub fn replay_policy_trees<J: Fn(&crate::tree::E) -> Verdict>(st: &mut Stats, judge: J) {
+    let dir = format!("{}/corpus/policy", verif_dir());
+    let Ok(rd) = std::fs::read_dir(&dir) else { return };
+    let mut files: Vec<_> = rd.filter_map(|e| e.ok()).map(|e| e.path()).collect();
+    files.sort();
+    let mut n = 0u64;
+    for f in files {
+        let Ok(data) = std::fs::read(&f) else { continue };
+        if let Some(c) = fuzzdec::policy_case(&data) {
+            let v = match judge(&c.tree) {
+                Verdict::Pass { nt, .. } => Verdict::Pass { nt, class: "tree of the policy fuzz corpus" },
+                o => o,
+            };
+            st.record(&v, stable_hash(&c.tree), false, || json!({"kind": "tree", "tree": crate::term::encode_expr(&c.tree), "from": "corpus/policy"}));
+            n += 1;
+        }
+    }
+    st.extra.insert("policy_corpus_trees".into(), json!(n));
+}
+
 /// Thorough tier: a work-bounded libFuzzer campaign (`procs` processes x `runs` executions).
 /// Crashes become failures after a strict in-process re-run; time-outs/OOMs are inconclusive.
 pub fn campaign(target: &str, seed: u64, runs: u64, procs: usize, max_len: usize, st: &mut Stats) {
